@@ -152,7 +152,50 @@ def _replay_once(args, timeout):
     return rc, out
 
 
-def replay_bin(args, timeout=1200):
+def replay_bin(args, timeout=2400):
+    """Replay behaviours; large files are split into chunks that are replayed by concurrent processes."""
+    build_harness()
+    args = [str(a) for a in args]
+    bi = 2 if args[0] == "delivery" else 1
+    behs_path, out_path = args[bi], args[bi + 1]
+    lines = [l for l in open(behs_path).read().splitlines() if l.strip()]
+    if len(lines) <= 3000:
+        return _replay_seq(args, timeout)
+    import concurrent.futures
+    k = min(8, (len(lines) + 1499) // 1500)
+    size = (len(lines) + k - 1) // k
+    jobs = []
+    for c in range(k):
+        chunk = lines[c * size:(c + 1) * size]
+        if not chunk:
+            continue
+        bp, op = f"{behs_path}.chunk{c}", f"{out_path}.chunk{c}"
+        with open(bp, "w") as f:
+            f.write("\n".join(chunk) + "\n")
+        a = list(args)
+        a[bi], a[bi + 1] = bp, op
+        jobs.append((c * size, a, bp, op))
+    total = {"behaviours": 0, "steps": 0, "inconclusive": 0, "mismatches": []}
+    with concurrent.futures.ThreadPoolExecutor(max_workers=k) as ex:
+        futs = [(off, bp, op, ex.submit(_replay_seq, a, timeout, True)) for off, a, bp, op in jobs]
+        for off, bp, op, fu in futs:
+            res = fu.result()
+            for key in ("behaviours", "steps", "inconclusive"):
+                total[key] += res.get(key, 0)
+            for mm in res["mismatches"]:
+                if isinstance(mm.get("behaviour"), int):
+                    mm["behaviour"] += off
+                total["mismatches"].append(mm)
+            for q in (bp, op):
+                if os.path.exists(q):
+                    os.remove(q)
+    with open(out_path, "w") as f:
+        json.dump(total, f)
+    log(f"[replay] REPLAY behaviours={total['behaviours']} steps={total['steps']} mismatches={len(total['mismatches'])} ({len(jobs)} processes)")
+    return total
+
+
+def _replay_seq(args, timeout=2400, quiet=False):
     """Run the replay binary.  args = [mode, (dag,) behaviours, out, ...].  If the process dies (an abort caused by
     a panic inside a destructor during unwinding cannot be caught in-process) the offending behaviour is located
     through the progress marker, reported as a mismatch with fields ["abort"], and the rest is replayed."""
@@ -205,7 +248,8 @@ def replay_bin(args, timeout=1200):
             break
     with open(out_path, "w") as f:
         json.dump(total, f)
-    log(f"[replay] REPLAY behaviours={total['behaviours']} steps={total['steps']} mismatches={len(total['mismatches'])}")
+    if not quiet:
+        log(f"[replay] REPLAY behaviours={total['behaviours']} steps={total['steps']} mismatches={len(total['mismatches'])}")
     return total
 
 
